@@ -142,6 +142,8 @@ func runC10(c *Ctx, tier string) {
 	runJoinSidesSwapTogether(c, "C10-J1")
 	runJoinDirDeclared(c, "C10-J2")
 	runSpillPartialsPairing(c, "C10-S4")
+	runPartialOutputForm(c, "C10-S5")
+	runGroupRowStamp(c, "C10-R1")
 }
 
 func recvType(cc *ssa.CallCommon) types.Type {
